@@ -375,6 +375,22 @@ func timerHygiene(r *Run, fn *ssa.Function, field, prop string) {
 		r.ob(prop+".R4:timer-armed:"+fn.Name(), "the function arms its reusable timer", fn, nil, false, "no NewTimer/Reset", false)
 		return
 	}
+	// NewTimer and Reset arm the timer with one and the same duration value
+	{
+		var durs []ssa.Value
+		for _, a := range arms {
+			cc := callCommon(a)
+			durs = append(durs, cc.Args[len(cc.Args)-1])
+		}
+		same := true
+		for _, d := range durs {
+			if d != durs[0] {
+				same = false
+			}
+		}
+		_, isConst := durs[0].(*ssa.Const)
+		r.ob(prop+".R4:timer-armed-consistently:"+fn.Name(), "creating and re-arming the reused timer use the same (computed) duration: a later call does not run with another call's or another setting's timeout", fn, arms[0], same && !isConst, fmt.Sprintf("%d arming calls, same value=%v", len(arms), same), true)
+	}
 	recvStop, recvCut, _ := recvMatchers(fn, "."+field+".C")
 	stopCall := func(i ssa.Instruction) bool { v, ok := i.(ssa.Value); return ok && isStop(v) }
 	// (a) every path from arming to return passes a tick receive or a Stop()
